@@ -112,8 +112,11 @@ func scBytes(s group.Scalar) []byte {
 func ssCase(t *rapid.T, gr grp, maxN int) {
 	g, r := gr.g, gr.r
 	sub := "ss/" + gr.name
-	n := rapid.IntRange(1, maxN).Draw(t, "n")
-	tt := rapid.IntRange(0, n-1).Draw(t, "t")
+	tt := rapid.IntRange(0, maxN-1).Draw(t, "t")
+	n := tt + 1
+	if rapid.IntRange(0, 4).Draw(t, "nKind") != 0 {
+		n = rapid.IntRange(tt+1, maxN).Draw(t, "n")
+	}
 	// secret
 	var secret *big.Int
 	skind := rapid.SampledFrom([]string{"0", "1", "r-1", "random", "random", "random"}).Draw(t, "secretKind")
@@ -211,7 +214,7 @@ func ssCase(t *rapid.T, gr grp, maxN int) {
 	for a := 0; a < nalt; a++ {
 		i := rapid.IntRange(0, n-1).Draw(t, "altIdx")
 		id2, v2 := new(big.Int).Set(ids[i]), new(big.Int).Set(vals[i])
-		kind := rapid.SampledFrom([]string{"value+1", "value-bit", "value-random", "value=0", "value=other-share", "id+1", "id-bit", "id-random", "id=other-share", "id=0", "swap-id-value", "both"}).Draw(t, "altKind")
+		kind := rapid.SampledFrom([]string{"value+1", "value-bit", "value-random", "value=0", "value=other-share", "id+1", "id-bit", "id-random", "id=other-share", "id=0", "id=0,value=secret", "swap-id-value", "both"}).Draw(t, "altKind")
 		switch kind {
 		case "value+1":
 			v2.Add(v2, big.NewInt(1)).Mod(v2, r)
@@ -239,6 +242,10 @@ func ssCase(t *rapid.T, gr grp, maxN int) {
 			id2.Set(ids[rapid.IntRange(0, n-1).Draw(t, "other")])
 		case "id=0":
 			id2.SetInt64(0)
+		case "id=0,value=secret":
+			// f(0) = secret, but identifier 0 is documented as never valid
+			id2.SetInt64(0)
+			v2.Set(secret)
 		case "swap-id-value":
 			id2, v2 = v2, id2
 		case "both":
@@ -273,12 +280,6 @@ func ssCase(t *rapid.T, gr grp, maxN int) {
 			vlib.NonTrivial(sub+"/altered", "altered-rejected", []byte(gr.name), []byte(kind), id2.Bytes(), v2.Bytes(), secret.Bytes(), []byte{byte(tt), byte(n)})
 		}
 	}
-	// wrong threshold argument / truncated commitment must not verify
-	if secretsharing.Verify(uint(tt+1), shares[0], com) {
-		vlib.Report(t, "C17/ss/"+gr.name+"/verify-wrong-threshold", desc()+": Verify with threshold t+1 accepted a t-commitment")
-		return
-	}
-
 	// (I) recovery from a drawn subset in a drawn order
 	nsub := rapid.IntRange(1, 3).Draw(t, "nsubsets")
 	for k := 0; k < nsub; k++ {
@@ -398,9 +399,9 @@ func TestC17SecretSharing(t *testing.T) {
 	for _, gr := range groups() {
 		gr := gr
 		t.Run(gr.name, func(t *testing.T) {
-			n := vlib.N(200, 1500)
+			n := vlib.N(500, 2500)
 			if gr.name == "P521" || gr.name == "P384" {
-				n = vlib.N(120, 900)
+				n = vlib.N(300, 1500)
 			}
 			vlib.Check(t, n, func(t *rapid.T) { ssCase(t, gr, maxN) })
 		})
@@ -625,6 +626,40 @@ func (d *dealt) combine(t vlib.TB, subset []int, sub string) bool {
 	return true
 }
 
+// unqualified: k-1 >= 1 distinct players must not produce a signature that verifies
+// (CombineSignShares documents the error "insufficient shares for the threshold").
+func (d *dealt) unqualified(t vlib.TB, subset []int, sub string) bool {
+	c := d.cfg
+	S := make([]tss.SignShare, len(subset))
+	for i, p := range subset {
+		s, ok := d.share(t, p)
+		if !ok {
+			return false
+		}
+		S[i] = s
+	}
+	vlib.Eval(sub)
+	var sig []byte
+	var err error
+	if p, st := vlib.Catch(func() { sig, err = tss.CombineSignShares(d.pub, S, d.padded) }); p != nil {
+		vlib.Report(t, "C17/tssrsa/combine-panic/"+vlib.PanicClass(p), fmt.Sprintf("%v players=%v (unqualified): %v\n%s", c, subset, p, st))
+		return false
+	}
+	if err == nil {
+		if c.padding == "pkcs1v15" {
+			err = rsa.VerifyPKCS1v15(d.pub, c.hash, d.digest, sig)
+		} else {
+			err = rsa.VerifyPSS(d.pub, c.hash, d.digest, sig, d.opts)
+		}
+		if err == nil {
+			vlib.Report(t, "C17/tssrsa/unqualified-subset-signs", fmt.Sprintf("%v players=%v (|S|=k-1): a verifying signature was produced", c, subset))
+			return false
+		}
+	}
+	vlib.NonTrivial(sub, "unqualified-refused", []byte(c.pk.name), []byte{byte(c.l), byte(c.k)}, []byte(fmt.Sprint(subset)), c.msg)
+	return true
+}
+
 func drawCfg(t *rapid.T, ks []poolKey, l, k int) rsaCfg {
 	c := rsaCfg{l: l, k: k}
 	// large keys are slow with many players: weight towards 1024 bits
@@ -668,7 +703,7 @@ func TestC17ThresholdRSA(t *testing.T) {
 	}
 	vlib.Selftest("c17 RSA key pool loads and validates (crypto/rsa.Validate)", "ok")
 	sub := "tssrsa/drawn"
-	vlib.Check(t, vlib.N(60, 500), func(t *rapid.T) {
+	vlib.Check(t, vlib.N(200, 900), func(t *rapid.T) {
 		var l int
 		switch rapid.IntRange(0, 3).Draw(t, "lKind") {
 		case 0:
@@ -707,6 +742,11 @@ func TestC17ThresholdRSA(t *testing.T) {
 			}
 			if !d.combine(t, subset, sub) {
 				return
+			}
+			if k >= 2 && i == 0 {
+				if !d.unqualified(t, subset[:k-1], "tssrsa/unqualified") {
+					return
+				}
 			}
 		}
 	})
